@@ -1190,7 +1190,10 @@ class Mps(MatrixProduct):
                             return func(0, y)
                         
                         if self.evolve_config.ivp_solver == "krylov":
-                            ms, Lanczos_vectors = expm_krylov(func1, evolve_dt, mps[imps].ravel().array)
+                            # expm_krylov requires a Hermitian operator: take the factor 1/coef out of
+                            # the integrand and put it into the time step
+                            ms, Lanczos_vectors = expm_krylov(lambda y: func1(y) * coef, evolve_dt / coef,
+                                    mps[imps].ravel().array)
                             logger.debug(f"# of Lanczos_vectors, {Lanczos_vectors}")
                         else:
                             sol = solve_ivp(lambda t, y: func1(y), 
